@@ -27,7 +27,7 @@ def write(pid, tier, seed, mir_hash, results, wall, violations, replays, known_p
             'verdict': r.get('verdict'), 'paths': r.get('paths'), 'queries': r.get('queries'),
             'solver_s': r.get('solver_s'), 'max_query_s': r.get('max_query_s'), 'checks': r.get('checks'),
             'covers': r.get('covers'), 'outcomes': r.get('outcomes'), 'unsupported': r.get('unsupported'),
-            'replays': r.get('replays'),
+            'replays': r.get('replays'), 'fidelity': r.get('fidelity'), 'params': r.get('params'),
         })
         for a in r.get('abstractions') or []:
             s = 'abstraction: ' + a
@@ -51,6 +51,9 @@ def write(pid, tier, seed, mir_hash, results, wall, violations, replays, known_p
             'solver_time_s': round(sum(r.get('solver_s', 0.0) for r in results), 3),
             'solvers': ['z3 %s (python API)' % _z3v()],
             'model_validation': model_validation,
+            'fidelity_runs': {'agrees': sum(1 for r in results if (r.get('fidelity') or {}).get('status') == 'agrees'),
+                              'differs': sum(1 for r in results if (r.get('fidelity') or {}).get('status') == 'differs'),
+                              'skipped': sum(1 for r in results if (r.get('fidelity') or {}).get('status') in (None, 'skipped'))},
             'known_findings_printed': [k.get('id') for k in known_printed],
             'explanation': 'states = feasible symbolic paths of the real MIR explored; transitions = SMT queries discharged; '
                            'each sample is one obligation (pre-state assumptions + real functions executed + post-condition) with its verdict',
